@@ -22,27 +22,42 @@ IsDec(s) == \/ IsDigits(s)
                                           /\ IsDigits(SubSeq(s, 1, i - 1))
                                           /\ IsDigits(SubSeq(s, i + 1, Len(s)))
 
-PartM3(x, part) ==
+\* TypeScript: a string s is a `${number}` iff s # "" and isFinite(+s).  Uncontested spellings beyond d+ and d+.d+ :
+\* an optional sign, "d+.", ".d+", and a decimal exponent of at most two digits ("1e3", "-2.5E-1").  Hexadecimal / binary
+\* spellings, surrounding white space and exponents that may overflow stay contested.
+ChAt(s, i) == SubSeq(s, i, i)
+IsUDec(s) == \/ IsDigits(s)
+             \/ (Len(s) >= 2 /\ ChAt(s, Len(s)) = "." /\ IsDigits(SubSeq(s, 1, Len(s) - 1)))
+             \/ (Len(s) >= 2 /\ ChAt(s, 1) = "." /\ IsDigits(SubSeq(s, 2, Len(s))))
+             \/ IsDec(s)
+IsMantissa(s) == IsUDec(s) \/ (Len(s) >= 2 /\ ChAt(s, 1) \in {"+", "-"} /\ IsUDec(SubSeq(s, 2, Len(s))))
+IsExpDigits(s) == LET d == IF Len(s) >= 1 /\ ChAt(s, 1) \in {"+", "-"} THEN SubSeq(s, 2, Len(s)) ELSE s IN IsDigits(d) /\ Len(d) <= 2
+IsNumSpelling(s) == \/ IsMantissa(s)
+                    \/ \E i \in 2..(Len(s) - 1) : ChAt(s, i) \in {"e", "E"} /\ IsMantissa(SubSeq(s, 1, i - 1)) /\ IsExpDigits(SubSeq(s, i + 1, Len(s)))
+
+\* deviation "tplNumberPlainDecimalOnly": the emitted regex for ${number} is (\d+(\.\d+)?) - signs, exponents, "1." and ".5" are rejected
+PartM3(x, part, D) ==
   CASE part.p = "str"  -> "T"
     [] part.p = "lit"  -> B3(x = part.s)
     [] part.p = "bool" -> B3(x \in {"true", "false"})
     [] part.p = "oneof" -> B3(\E i \in DOMAIN part.ss : x = part.ss[i])
     [] part.p = "num"  -> IF IsDec(x) THEN "T"
                           ELSE IF x = "" THEN "F"
+                          ELSE IF IsNumSpelling(x) THEN (IF "tplNumberPlainDecimalOnly" \in D THEN "F" ELSE "T")
                           ELSE IF AllIn(x, NumChars) \/ x \in {"NaN", "Infinity", "-Infinity"} THEN "X"
                           ELSE "F"
 
-RECURSIVE TplM3(_, _)
-TplM3(s, parts) ==
+RECURSIVE TplM3(_, _, _)
+TplM3(s, parts, D) ==
   IF parts = <<>> THEN B3(s = "")
-  ELSE Or3({ And3({ PartM3(SubSeq(s, 1, i), Head(parts)),
-                    TplM3(SubSeq(s, i + 1, Len(s)), Tail(parts)) }) : i \in 0..Len(s) })
+  ELSE Or3({ And3({ PartM3(SubSeq(s, 1, i), Head(parts), D),
+                    TplM3(SubSeq(s, i + 1, Len(s)), Tail(parts), D) }) : i \in 0..Len(s) })
 
 \* deviation "tplUnanchored": the emitted regex is not anchored, any substring may match
 TplMatch(s, parts, D) ==
   IF "tplUnanchored" \in D
-  THEN Or3({ TplM3(SubSeq(s, i, j), parts) : i \in 1..(Len(s) + 1), j \in 0..Len(s) })
-  ELSE TplM3(s, parts)
+  THEN Or3({ TplM3(SubSeq(s, i, j), parts, D) : i \in 1..(Len(s) + 1), j \in 0..Len(s) })
+  ELSE TplM3(s, parts, D)
 
 StrFmtOk(f, s) == CASE f = "f1" -> Len(s) >= 1 /\ SubSeq(s, 1, 1) = "a"
                     [] f = "f2" -> Len(s) <= 2
@@ -64,6 +79,7 @@ PrimM3(v, p) ==
     [] p = "never"   -> "F"
     [] p = "bigint"  -> B3(v.k = "big")
     [] p = "Date"    -> B3(v.k = "date")
+    [] p = "function" -> B3(v.k = "fn")                        \* any function type: only typeof is checked
     [] p = "object"  -> IF IsObjLike(v) THEN "T" ELSE IF v.k \in {"arr", "fn"} THEN "X" ELSE "F"
 
 \* ------------------------------------------------------------------ normal form of unions / intersections
@@ -122,7 +138,7 @@ MergedAtCompileTime(T) == \A i \in DOMAIN T.ms : Undeco(T.ms[i]).t = "obj" /\ Un
 InexactFractions == {"3.14159"}
 
 \* ------------------------------------------------------------------ membership
-ObjM3(v, T, env, D, s) ==
+ObjM3c(v, T, env, D, s) ==
   IF ~IsObjLike(v)
   THEN IF IsNullish(v) THEN "F"
        ELSE IF \A i \in DOMAIN T.ps : T.ps[i].opt THEN "X" ELSE "F"
@@ -146,6 +162,13 @@ ObjM3(v, T, env, D, s) ==
                             ELSE IF s \/ "ixKeyMismatchRejects" \in D THEN "F" ELSE "T"
                   : key \in extra }
     IN And3(propV \cup extraV)
+
+\* an object all of whose properties are inherited from its prototype (class "inh"): TypeScript gives it the structural type of
+\* those properties, beff's validators read own properties only - wherever the two readings differ the verdict is contested
+ObjM3(v, T, env, D, s) ==
+  IF v.k = "obj" /\ v.c = "inh"
+  THEN LET a == ObjM3c(v, T, env, D, s)  b == ObjM3c(VObj(<<>>), T, env, D, s) IN IF a = b THEN a ELSE "X"
+  ELSE ObjM3c(v, T, env, D, s)
 
 TupM3(v, T, env, D, s) ==
   IF v.k # "arr" THEN "F"
